@@ -5,11 +5,11 @@
           every emitter of `Vt100_Output` (mode switches, cursor moves, `cursor_goto`, cursor shapes,
           CPR request, bell) and every `Renderer.reset` / `Renderer.erase` writes a pure-ASCII
           sentence of the output grammar, in every state and for every amount / position
-    * `setTitle_one_token_partial`, `setTitle_all`, `setTitle_st_injects`
-          `set_title`: one OSC token when no control character survives in the title; with the
-          snapshot's filter (ESC and BEL only) an 8-bit ST in the title ends the sequence early
-    * `dumb_no_esc`, `dumb_clean_partial`, `dumb_mapped_full`, `dumb_unmapped_injects`
-          the dumb-terminal prompt
+    * `setTitle_one_token`, `setTitle_ctrlTokens`, `setTitle_body_clean`, `setTitlePreFix_st_injects`
+          `set_title` (repaired rule: C0, DEL, C1 deleted): ANY title is one OSC token; the old rule
+          (ESC and BEL only) let an 8-bit ST end the sequence early
+    * `dumb_no_esc`, `dumb_prompt_clean`, `dumbPreFix_injects`
+          the dumb-terminal prompt (repaired: caret/hex notation)
     * `proxy_safe_no_esc`, `proxy_raw_is_marked`, `proxy_bytes_no_esc`   `patch_stdout`
     * `printPlain_adds_nothing`, `printPlain_bytes`   `print_formatted_text` on a `PlainTextOutput`
 -/
@@ -234,23 +234,18 @@ theorem strTail_body {b : CText} (hb : ∀ c ∈ b, strBodyChar c = true) (s : C
       decide_false]
     exact ih (fun x hx => hb x (by simp [hx]))
 
-/-- what survives the filter of `set_title` -/
-def titleKept (G : Emit2) (title : CText) : CText := title.filter fun c => !G.titleRemoved.contains c
-
-/-- **`set_title`, partial.**  If every character of the title that `set_title` does not delete is a
-    non-control character, the whole call writes exactly ONE token of the grammar (the OSC with the
-    title inside).  FULL statement (for all titles) needs the filter to delete every control
-    character: `setTitle_all`; it is FALSE for the snapshot's filter: `setTitle_st_injects`. -/
-theorem setTitle_one_token_partial {G : Emit2} (hG : titleFrameOk G = true) (title : CText)
-    (h : ∀ c ∈ titleKept G title, isControl c = false) :
+/-- **`set_title` (as repaired): ANY title — ESC, BEL, 8-bit ST, CSI, lone surrogates, anything — is
+    written as exactly ONE token of the grammar** (the OSC with the filtered title inside): nothing in
+    a title can end the sequence early or start another one. -/
+theorem setTitle_one_token {G : Emit2} (hG : titleFrameOk G = true) (title : CText) :
     isToken (setTitle G false title) = true := by
   simp only [titleFrameOk, Bool.and_eq_true] at hG
   obtain ⟨hpre, hsuf⟩ := hG
   simp only [setTitle, Bool.false_eq_true, if_false]
-  change isToken (G.titlePre ++ titleKept G title ++ G.titleSuf) = true
-  have hbody : ∀ c ∈ titleKept G title, strBodyChar c = true := by
+  have hbody : ∀ c ∈ title.filter (fun c => !isControl c), strBodyChar c = true := by
     intro c hc
-    have := h c hc
+    simp only [List.mem_filter, Bool.not_eq_true'] at hc
+    have := hc.2
     simp only [strBodyChar, Bool.and_eq_true, bne_iff_ne, ne_eq]
     refine ⟨⟨?_, ?_⟩, ?_⟩ <;> (intro e; subst e; exact absurd this (by decide))
   match hp : G.titlePre, hpre with
@@ -262,44 +257,41 @@ theorem setTitle_one_token_partial {G : Emit2} (hG : titleFrameOk G = true) (tit
     rw [List.append_assoc, strTail_body hpb, strTail_body hbody]
     exact hsuf
 
-def titleCovers (G : Emit2) : Bool := controlCodes.all fun c => G.titleRemoved.contains c
+/-- the tokenizer's view: the whole `set_title` output is one control token -/
+theorem setTitle_ctrlTokens {G : Emit2} (hG : titleFrameOk G = true) (title : CText) :
+    ctrlTokens (setTitle G false title) = [setTitle G false title] := by
+  have h := isToken_accept (setTitle_one_token hG title) []
+  have e0 : (⟨.ground, [], []⟩ : TK) = tk0 := rfl
+  rw [e0] at h
+  unfold ctrlTokens
+  simp [h]
 
-/-- **`set_title`, full, for a filter that deletes every control character** (the proposed fix
-    `C10-set-title-controls`): ANY title is written as exactly one token. -/
-theorem setTitle_all {G : Emit2} (hG : titleFrameOk G = true) (hc : titleCovers G = true) (title : CText) :
-    isToken (setTitle G false title) = true := by
-  apply setTitle_one_token_partial hG
-  intro c hcm
-  simp only [titleKept, List.mem_filter, Bool.not_eq_true'] at hcm
-  cases hx : isControl c with
-  | false => rfl
-  | true =>
-    have := List.all_eq_true.mp hc c (isControl_mem_codes hx)
-    rw [this] at hcm
-    exact absurd hcm.2 (by simp)
+/-- what is between the frame and the terminator contains no control character -/
+theorem setTitle_body_clean (G : Emit2) (title : CText) :
+    ∃ body, setTitle G false title = G.titlePre ++ body ++ G.titleSuf ∧ Clean body :=
+  ⟨title.filter (fun c => !isControl c), rfl, by
+    intro c hc; simp only [List.mem_filter, Bool.not_eq_true'] at hc; exact hc.2⟩
 
 /-- the title frame of the real `Vt100_Output` (`ESC ] 2 ;` … `BEL`) is well-formed -/
 theorem gen_title_frame : titleFrameOk genEmit2 = true := by decide +kernel
 
-/-- the snapshot's `set_title` (deletes ESC and BEL only) -/
-def snapshotTitle : Emit2 := { genEmit2 with titleRemoved := [7, 27] }
+/-- the rule `set_title` had before /repo f7226c7: only ESC and BEL deleted -/
+def setTitlePreFix (G : Emit2) (title : CText) : CText :=
+  G.titlePre ++ title.filter (fun c => !(c == ESC || c == BEL)) ++ G.titleSuf
 
-/-- **Negation on a witness (snapshot filter).**  The title `x ST CSI 2 J` — U+009C ends the OSC, and
-    the terminal then reads an 8-bit CSI sequence that the renderer did not generate. -/
-theorem setTitle_st_injects :
-    ctrlTokens (setTitle snapshotTitle false [0x78, ST8, CSI8, 0x32, 0x4a]) =
+/-- **The pre-fix rule was not enough** (kept as a statement about the old rule).  The title
+    `x ST CSI 2 J` — U+009C ends the OSC, and the terminal then reads an 8-bit CSI sequence that the
+    renderer did not generate. -/
+theorem setTitlePreFix_st_injects :
+    ctrlTokens (setTitlePreFix genEmit2 [0x78, ST8, CSI8, 0x32, 0x4a]) =
       [[ESC, 0x5d, 0x32, 0x3b, 0x78, ST8], [CSI8, 0x32, 0x4a], [BEL]] := by decide +kernel
 
-/-- which of the two the tree under test is: the regenerated filter either deletes every control
-    character, or it is the snapshot's -/
-theorem gen_title_status : titleCovers genEmit2 = true ∨ genEmit2.titleRemoved = [7, 27] := by
-  decide +kernel
-
-example : isToken (setTitle genEmit2 false [0x68, 0x69, ESC, BEL, 0x4E16, 0xDC9B]) = true := by decide +kernel
+example : setTitle genEmit2 false [0x68, ESC, BEL, ST8, CSI8, 0x9f, 0x4E16, 0xDC9B, 0x69] =
+    [ESC, 0x5d, 0x32, 0x3b, 0x68, 0x4E16, 0xDC9B, 0x69, BEL] := by decide +kernel
 
 /-! ### the dumb-terminal prompt -/
 
-theorem dumb_no_esc (maps : Bool) (m : Table) (ev : DumbEv) : ESC ∉ dumbStep maps m ev := by
+theorem dumb_no_esc (m : Table) (ev : DumbEv) : ESC ∉ dumbStep m ev := by
   cases ev <;> exact safe_write_no_esc _
 
 theorem clean_flatMap {t : CText} {f : CP → CText} (h : ∀ c ∈ t, ∀ x ∈ f c, isControl x = true → x = LF) :
@@ -313,26 +305,17 @@ theorem lastChar_sub (t : CText) : ∀ c ∈ lastChar t, c ∈ t := by
   intro c hc
   exact List.mem_of_mem_drop hc
 
-/-- **Dumb prompt, partial (the code as of this snapshot).**  A prompt message / typed character
-    without control characters is written without control characters.  The full statement ("whatever
-    characters occur in the prompt") is FALSE for `maps = false`: `dumb_unmapped_injects`. -/
-theorem dumb_clean_partial (m : Table) :
-    (∀ msg, Clean (fragListToText msg) → Clean (dumbStep false m (.start msg))) ∧
-    (∀ tb, Clean (lastChar tb) → Clean (dumbStep false m (.changed tb))) := by
-  constructor
-  · intro msg h; exact safe_write_clean (by simpa [dumbDisplay] using h)
-  · intro tb h; exact safe_write_clean (by simpa [dumbDisplay] using h)
+/-- the dumb prompt before /repo 16862de: text straight into the escaping writer -/
+def dumbStartPreFix (msg : List Frag) : CText := safeWrite (fragListToText msg)
 
-/-- **Negation on a witness.**  The prompt message `CSI 2 J >` on a dumb terminal: the 8-bit CSI
-    sequence reaches the terminal. -/
-theorem dumb_unmapped_injects (m : Table) :
-    ctrlTokens (dumbStep false m (.start [([], [CSI8, 0x32, 0x4a, 0x3e])])) = [[CSI8, 0x32, 0x4a]] := by
-  simp only [dumbStep, dumbDisplay, Bool.false_eq_true, if_false]
-  decide
+/-- **The pre-fix dumb prompt was not enough** (kept as a statement about the old rule): the prompt
+    message `CSI 2 J >` reached the terminal as an 8-bit CSI sequence. -/
+theorem dumbPreFix_injects :
+    ctrlTokens (dumbStartPreFix [([], [CSI8, 0x32, 0x4a, 0x3e])]) = [[CSI8, 0x32, 0x4a]] := by decide
 
 theorem dumbDisplay_mapped {m : Table} (hc : coversControls m = true) (hp : valuesPrintable m = true)
-    (t : CText) : ∀ x ∈ dumbDisplay true m t, isControl x = true → x = LF := by
-  simp only [dumbDisplay, if_true]
+    (t : CText) : ∀ x ∈ dumbDisplay m t, isControl x = true → x = LF := by
+  simp only [dumbDisplay]
   apply clean_flatMap
   intro c _ x hx hctl
   split at hx
@@ -348,13 +331,13 @@ theorem dumbDisplay_mapped {m : Table} (hc : coversControls m = true) (hp : valu
       have := covered_of_control hc hctl
       simp [hl] at this
 
-/-- **Dumb prompt, full, for the mapped display (proposed fix `C10-dumb-prompt-controls`).**  Whatever
-    the prompt message and the typed text contain, the only control characters written are the
-    newlines of the text itself (and the CR LF that ends the prompt). -/
-theorem dumb_mapped_full {m : Table} (hc : coversControls m = true) (hp : valuesPrintable m = true) :
-    (∀ msg, ∀ x ∈ dumbStep true m (.start msg), isControl x = true → x = LF) ∧
-    (∀ tb, ∀ x ∈ dumbStep true m (.changed tb), isControl x = true → x = LF) ∧
-    dumbStep true m .finish = [CR, LF] := by
+/-- **Dumb-terminal prompt, full.**  Whatever the prompt message and the typed text contain, the only
+    control characters written are the newlines of the text itself (and the CR LF that ends the
+    prompt); in particular never ESC. -/
+theorem dumb_prompt_clean {m : Table} (hc : coversControls m = true) (hp : valuesPrintable m = true) :
+    (∀ msg, ∀ x ∈ dumbStep m (.start msg), isControl x = true → x = LF) ∧
+    (∀ tb, ∀ x ∈ dumbStep m (.changed tb), isControl x = true → x = LF) ∧
+    dumbStep m .finish = [CR, LF] := by
   refine ⟨?_, ?_, rfl⟩
   · intro msg x hx hctl
     have hmem := safe_write_no_new_control _ x hx hctl
@@ -363,11 +346,8 @@ theorem dumb_mapped_full {m : Table} (hc : coversControls m = true) (hp : values
     have hmem := safe_write_no_new_control _ x hx hctl
     exact dumbDisplay_mapped hc hp _ x hmem hctl
 
-example : dumbStep true Gen.C10.displayMappings (.start [([], [CSI8, 0x32, 0x4a, LF, 7]), (zweMarker, [ESC])]) =
-    [0x3c, 0x39, 0x62, 0x3e, 0x32, 0x4a, LF, 0x5e, 0x47] := by decide +kernel
-
-/-- the probe of the real `_dumb_prompt` worked -/
-theorem gen_dumb_probe : Gen.C10.dumbPromptProbeOk = true := by decide
+example : dumbStep Gen.C10.displayMappings (.start [([], [CSI8, 0x32, 0x4a, LF, 7, 9, 13]), (zweMarker, [ESC])]) =
+    [0x3c, 0x39, 0x62, 0x3e, 0x32, 0x4a, LF, 0x5e, 0x47, 0x5e, 0x49, 0x5e, 0x4d] := by decide +kernel
 
 /-! ### `patch_stdout` -/
 
